@@ -243,3 +243,20 @@ Example C17_example_response :
   resp_field (o false true) (f [Ann K_QUERY [113]]) [55] = RODropped /\
   resp_field (o false false) (f [Ann K_HTTP_CODE []]) [50; 48; 48] = RODelivered K_HTTP_CODE [] [50; 48; 48].
 Proof. vm_compute. repeat split; reflexivity. Qed.
+
+(* ================================================================== (G) the flag word of the native converter *)
+(* conv/j2t toFlags from the Go source (gen/Gen_j2tflags.v): the options of the model that travel to the native code in the flag word
+   (write options, ReadHttpValueFallback = F_TRACE_BACK, NoBase64Binary) arrive as the model's option record, with F_HTTP_MAPPING set *)
+From DG Require Import NativeFlags Gen_j2tflags GenJ2tflagsProofs.
+Theorem C17_toFlags_denotes_hopts :
+  forall h : hopts,
+  flag_on (toFlags (opts_of_hopts h)) NF_HTTP_MAPPING = true /\
+  flag_on (toFlags (opts_of_hopts h)) NF_ALLOW_UNKNOWN = true /\
+  flag_on (toFlags (opts_of_hopts h)) NF_WRITE_REQUIRE = o_wr h /\
+  flag_on (toFlags (opts_of_hopts h)) NF_WRITE_DEFAULT = o_wd h /\
+  flag_on (toFlags (opts_of_hopts h)) NF_WRITE_OPTIONAL = o_wo h /\
+  flag_on (toFlags (opts_of_hopts h)) NF_TRACE_BACK = o_rhf h /\
+  flag_on (toFlags (opts_of_hopts h)) NF_NO_BASE64 = o_nob64 h /\
+  flag_on (toFlags (opts_of_hopts h)) NF_VALUE_MAPPING = false /\ flag_on (toFlags (opts_of_hopts h)) NF_STRING_INT = false.
+Proof. exact toFlags_hopts. Qed.
+Print Assumptions C17_toFlags_denotes_hopts.
